@@ -217,3 +217,29 @@ func casterSeqCheck(r *vrt.Result) string {
 	}
 	return ""
 }
+
+func casterMisuseCheck(r *vrt.Result) string {
+	if m := baseCheck(r, true, true, true); m != "" {
+		return m
+	}
+	reported, phase2 := false, false
+	for _, e := range r.Events {
+		switch e.Kind {
+		case "phase2":
+			phase2 = true
+		case "panicked":
+			if !phase2 {
+				reported = true
+			}
+		case "returned":
+			if phase2 && reported {
+				return fmt.Sprintf("poison-lost: %q returned normally although an earlier Add had reported a violation", e.Str(0))
+			}
+		}
+	}
+	if !reported {
+		// Add(+1) first, then Add(-1): balanced, nothing to report - then the later calls are ordinary
+		return ""
+	}
+	return ""
+}
